@@ -282,8 +282,12 @@ func (m *Minter) Mint(spec ReqSpec, s time.Time, skew time.Duration, r *core.Rng
 	}
 	// --- outer (unauthenticated) ticket labels
 	tkt := rk.Ticket{Realm: spec.Realm, SName: rk.ParseName(spec.Svc), Enc: enc}
-	if hasDefect(ds, "wrong-kvno-label") != nil {
-		tkt.Enc.Kvno, tkt.Enc.HasKvn = int64(spec.Kvno)+1, true
+	if d := hasDefect(ds, "wrong-kvno-label"); d != nil {
+		delta := d.Arg // other key versions, among them ones equal to the right one modulo 2^8, 2^16, 2^24
+		if delta <= 0 {
+			delta = 1
+		}
+		tkt.Enc.Kvno, tkt.Enc.HasKvn = int64(spec.Kvno)+delta, true
 	}
 	if hasDefect(ds, "wrong-etype-label") != nil {
 		others := []int{17, 18, 19, 20, 16, 23}
